@@ -16,10 +16,10 @@ RULE = ('(a) ZerothMonitor on every depth-0 public UTPM call that has a NumPy/Sc
         '(2,2), (2,3), (2,3,2), size 0} x operand kinds x D in {1,3} x P in {1,2,3} with different base points per direction; '
         'comparison operators on mixed orderings, equal values, arrays and scalars; (c) plain-array calls of every algopy-level '
         'function compared bit-for-bit (type, dtype, shape) with the NumPy/SciPy function; class = (call, P, shapes) resp. '
-        '(function, shape); non-trivial = the call has at least one polynomial argument (a) / array argument (c)')
+        '(function, shape); (d) module-level entry points (dot, outer, tile, diag, triu, tril, trace, sum, transpose, reshape, fft, ifft, maximum, minimum, prod, inv, det, solve) with polynomial and traced (Function) arguments over rank / extent combinations incl. single-element operands of rank >= 1, the returned object compared directly with NumPy; non-trivial = the call has at least one polynomial argument (a) / array argument (c)')
 ASSUMPTIONS = ['NumPy/SciPy on the zeroth coefficients is the specification', 'singular vectors and general eigenvectors are excluded by the statement (C08 covers them)',
                '!= is derived by Python from __eq__ and only checked for single-element operands']
-REQUIRED = ['zeroth-shadow', 'compare:__lt__', 'compare:__le__', 'compare:__gt__', 'compare:__ge__', 'compare:__eq__', 'compare:Function', 'plain', 'branches']
+REQUIRED = ['zeroth-shadow', 'compare:__lt__', 'compare:__le__', 'compare:__gt__', 'compare:__ge__', 'compare:__eq__', 'compare:Function', 'plain', 'branches', 'entry']
 
 _mon = None
 
@@ -56,6 +56,11 @@ def cases(tier, seed):
                     out.append({'kind': 'sweep', 'seed': case_seed('C10', seed, 'sweep', D, P, shape, rep), 'params': {'D': D, 'P': P, 'shape': list(shape)}})
                 out.append({'kind': 'compare', 'seed': case_seed('C10', seed, 'cmp', D, P, rep), 'params': {'D': D, 'P': P}})
                 out.append({'kind': 'linalg', 'seed': case_seed('C10', seed, 'lin', D, P, rep), 'params': {'D': D, 'P': P}})
+    for rep in range(reps):
+        for D in (1, 2):
+            for P in (1, 3):
+                for wrap in ('utpm', 'function'):
+                    out.append({'kind': 'entry', 'seed': case_seed('C10', seed, 'entry', D, P, wrap, rep), 'params': {'D': D, 'P': P, 'wrap': wrap}})
     for rep in range(reps * 3):
         out.append({'kind': 'plain', 'seed': case_seed('C10', seed, 'plain', rep), 'params': {}})
     return out
@@ -246,6 +251,102 @@ def _compare(ctx, p, rng):
         if not (isinstance(got, UTPM) and np.allclose(got.data[0], want, rtol=1e-13)):
             ctx.violation('branches:different-path', {'x0': x0.tolist(), 'want': float(want)}); return
         ctx.ok('branches', ('branches', D, P, bool(x0[0] > x0[1]), bool(x0[1] >= 0.2)))
+
+
+def _entry(ctx, p, rng):
+    """module-level entry points (algopy.dot, algopy.tile, ...) called with polynomial or traced arguments: the object handed
+    back is compared directly with NumPy on the zeroth coefficients (value, shape, ndim, size, len), whatever methods the
+    entry point chose to dispatch to; degenerate extents (one element with ndim >= 1, one row / column) included"""
+    from algopy import Function
+    D, P, wrap = p['D'], p['P'], p['wrap']
+
+    def U(shape, dom='R'):
+        return ('u', gen.series_data(rng, D, P, tuple(shape), dom, 'random', False, 0.5))
+
+    def Cst(shape):
+        return ('c', rng.normal(size=shape) + 0.5)
+    calls = []
+    for sa, sb in [((3,), (3,)), ((1,), (1,)), ((2, 3), (3,)), ((3, 1), (1,)), ((1, 1), (1,)), ((1,), (1, 4)), ((2, 3), (3, 2)), ((2, 3, 1), (1,)),
+                   ((3,), (3, 1)), ((1, 3), (3, 1)), ((3, 1), (1, 3)), ((2, 2, 3), (3, 2))]:
+        calls.append(('dot:UU', algopy.dot, np.dot, [U(sa), U(sb)], {}))
+        calls.append(('dot:UC', algopy.dot, np.dot, [U(sa), Cst(sb)], {}))
+        calls.append(('dot:CU', algopy.dot, np.dot, [Cst(sa), U(sb)], {}))
+    for sa, sb in [((3,), (2,)), ((1,), (3,)), ((1,), (1,)), ((3,), (1,))]:
+        calls.append(('outer', algopy.outer, np.outer, [U(sa), U(sb)], {}))
+        calls.append(('outer:CU', algopy.outer, np.outer, [Cst(sa), U(sb)], {}))
+    for shp, reps in [((3,), 2), ((3,), (2, 2)), ((2, 3), 2), ((2, 3), (2,)), ((), 3), ((2, 3), (1, 2, 2)), ((1,), (3,)), ((2, 1), (1, 3))]:
+        calls.append(('tile', algopy.tile, np.tile, [U(shp), ('c', reps)], {}))
+    for shp in [(3,), (1,), (3, 3), (2, 4), (4, 2), (1, 1)]:
+        for k in (0, 1, -1):
+            calls.append(('diag', algopy.diag, np.diag, [U(shp), ('c', k)], {}))
+            if len(shp) == 2:
+                calls.append(('triu', algopy.triu, np.triu, [U(shp), ('c', k)], {}))
+                calls.append(('tril', algopy.tril, np.tril, [U(shp), ('c', k)], {}))
+    for shp in [(3, 3), (4, 2), (2, 4), (1, 1), (3, 1)]:
+        calls.append(('trace', algopy.trace, np.trace, [U(shp)], {}))
+    for shp in [(2, 3), (1, 3), (3, 1), (2, 3, 2), (1,)]:
+        calls.append(('sum', algopy.sum, np.sum, [U(shp)], {}))
+        for ax in range(-len(shp), len(shp)):
+            calls.append(('sum:axis', algopy.sum, np.sum, [U(shp)], {'axis': ax}))
+        calls.append(('transpose', algopy.transpose, np.transpose, [U(shp)], {}))
+        calls.append(('reshape', algopy.reshape, np.reshape, [U(shp), ('c', (int(np.prod(shp)),))], {}))
+        calls.append(('reshape:-1', algopy.reshape, np.reshape, [U(shp), ('c', (-1, 1))], {}))
+    for shp in [(4,), (3, 4), (2, 3, 2), (1,)]:
+        calls.append(('fft', algopy.fft.fft, np.fft.fft, [U(shp)], {}))
+        calls.append(('ifft', algopy.fft.ifft, np.fft.ifft, [U(shp)], {}))
+        for ax in range(-len(shp), len(shp)):
+            calls.append(('fft:axis', algopy.fft.fft, np.fft.fft, [U(shp)], {'axis': ax}))
+            calls.append(('ifft:axis', algopy.fft.ifft, np.fft.ifft, [U(shp)], {'axis': ax}))
+    for shp in [(3,), (1,), (2, 1), ()]:
+        calls.append(('maximum', algopy.maximum, np.maximum, [U(shp), U(shp)], {}))
+        calls.append(('minimum', algopy.minimum, np.minimum, [U(shp), U(shp)], {}))
+        calls.append(('prod', algopy.prod, np.prod, [U(shp, 'nz')], {}))
+    for n in (1, 3):
+        Md = gen.series_data(rng, D, P, (n, n), 'R', 'random', False, 0.3)
+        for pp in range(P):
+            Md[0, pp] = gen.well_conditioned(rng, n, n) + 2 * np.eye(n)
+        calls.append(('inv', algopy.inv, np.linalg.inv, [('u', Md)], {}))
+        calls.append(('det', algopy.det, np.linalg.det, [('u', Md)], {}))
+        calls.append(('solve', algopy.solve, np.linalg.solve, [('u', Md), U((n, 2))], {}))
+        calls.append(('solve:col', algopy.solve, np.linalg.solve, [('u', Md), U((n, 1))], {}))
+    for (name, fa, fn, spec, kw) in calls:
+        args = []
+        for kind, v in spec:
+            if kind == 'u':
+                u = UTPM(v.copy())
+                args.append(Function(u) if wrap == 'function' else u)
+            else:
+                args.append(v.copy() if isinstance(v, np.ndarray) else v)
+        try:
+            refs = []
+            with np.errstate(all='ignore'):
+                for pp in range(P):
+                    refs.append(np.asarray(fn(*[(v[0, pp] if kind == 'u' else v) for kind, v in spec], **kw)))
+        except Exception:
+            ctx.skip('numpy-rejects:' + name); continue
+        try:
+            with np.errstate(all='ignore'):
+                r = fa(*args, **kw)
+        except Exception as e:
+            ctx.skip('sut-raises:%s:%s' % (name.split(':')[0], type(e).__name__)); continue
+        if wrap == 'function':
+            r = getattr(r, 'x', r)
+        info = {'entry': name, 'wrap': wrap, 'D': D, 'P': P, 'shapes': [list(np.shape(v)[2:]) if k == 'u' else (list(np.shape(v)) if isinstance(v, np.ndarray) else repr(v)) for k, v in spec], 'kwargs': repr(kw)}
+        key = name.split(':')[0]
+        if not isinstance(r, UTPM):
+            ctx.violation('entry:%s:result-type' % key, dict(info, got=type(r).__name__)); continue
+        want = refs[0].shape
+        if r.data.shape[:2] != (D, P) or r.data.shape[2:] != want or r.shape != want or r.ndim != len(want) or r.size != int(np.prod(want, dtype=int)):
+            ctx.violation('entry:%s:shape' % key, dict(info, got=list(r.data.shape), want=[D, P] + list(want))); continue
+        bad = None
+        for pp in range(P):
+            g = r.data[0, pp]; ref = refs[pp]
+            sc = max(1.0, float(np.max(np.abs(ref))) if ref.size else 1.0) * max(1, max([np.shape(v)[-1] if (k == 'u' and np.ndim(v) > 2) else 1 for k, v in spec]))
+            if ref.size and not np.max(np.abs(g - ref)) <= 1e-12 * sc:
+                bad = pp; break
+        if bad is not None:
+            ctx.violation('entry:%s:value' % key, dict(info, direction=bad)); continue
+        ctx.ok('entry', ('entry', name, wrap, tuple(tuple(x) if isinstance(x, list) else x for x in info['shapes']), repr(kw), D, P))
 
 
 def _same_plain(a, b):
